@@ -14,8 +14,14 @@ for f in glob.glob("/tmp/mut/confirm*.log") + glob.glob("/tmp/claude-0/-verif/*/
     except Exception:
         pass
 results = {}
-for f in sorted(glob.glob("/tmp/mut/q*.log")):
+def qnum(f):
+    m = re.search(r"q(\d+)\.log", f)
+    return int(m.group(1)) if m else 0
+for f in sorted(glob.glob("/tmp/mut/q*.log"), key=qnum):
     for line in open(f):
+        # round-4 directories are called Mxx-out; logs before q13 used that prefix for my own mutants
+        if "patch=M" in line and qnum(f) < 13:
+            continue
         m = re.match(r"RESULT patch=([CDEM]\d+)-out/([ABC])[^ ]* check=(C\d+) exit=(\d+) secs=(\d+) ?(.*)", line)
         if m:
             key = (m.group(1), m.group(2))
@@ -56,7 +62,7 @@ for d in sorted(glob.glob("/tmp/wt/[CDEM]*-out")):
         inconclusive = sorted(k for k, v in res.items() if v[0] not in (0, 1))
         meta = {
             "breaks_property": real_prop,
-            "author": ("sub-agent that was given one part of the sources, the list of the 20 properties and its own scratch worktree (round 4, module-driven)" if prop[0] == "M" else "sub-agent that saw only the property text and its own scratch worktree") + ("" if prop[0] == "C" else " (later round: it was also told, in one or two lines each, which changes the earlier rounds had delivered, and asked for different mechanisms)"),
+            "author": ("sub-agent that was given one part of the sources, the list of the 20 properties and its own scratch worktree (round 4, module-driven)" if prop[0] == "M" else "sub-agent that saw only the property text and its own scratch worktree") + ("" if prop[0] in "CM" else " (later round: it was also told, in one or two lines each, which changes the earlier rounds had delivered, and asked for different mechanisms)"),
             "what_it_needs_to_manifest": meta_txt.strip(),
             "confirmed_by_me": {
                 "how": "tools/confirm_mutant.sh in the scratch worktree /tmp/mut/repo-confirm: cargo test --workspace --offline with the change; the demonstration as tests/demo_x.rs with and without the change",
